@@ -3,6 +3,8 @@ scripted generators and the vehicles' own drivers; the list handed to apply_inst
 compared with the Lean model `finalInstructions gens drivers`."""
 from __future__ import annotations
 
+from . import framework as fw  # noqa: E402
+
 import logging
 import random
 from typing import Any, Dict, List, Tuple
@@ -118,5 +120,5 @@ def worker(args) -> Dict[str, Any]:
                 findings.append({"id": r["id"], "kind": "diff", "text": o["diff"][:4], "record": r})
             if o.get("mon"):
                 findings.append({"id": r["id"], "kind": "mon", "text": o["mon"][:4], "record": r})
-    return {"n": len(recs), "findings": findings[:20], "n_findings": len(findings), "shapes": sorted(shapes),
+    return {"n": len(recs), "findings": fw.pick(findings, 20), "n_findings": len(findings), "shapes": sorted(shapes),
             "sample": {k: recs[0][k] for k in ("gens", "drivers", "final")} if recs else None}
